@@ -660,10 +660,13 @@ pub fn ep_family(out: &mut dyn Write, rng: &mut Rng, stride: u64) {
 /// castling family: every attacker type on every square near the back rank, every rights subset
 pub fn castle_family(out: &mut dyn Write) {
     let mut dist = Dist::default();
+    let shard: u64 = std::env::var("VERIF_SHARD").ok().and_then(|s| s.parse().ok()).unwrap_or(0);
+    let shards: u64 = std::env::var("VERIF_SHARDS").ok().and_then(|s| s.parse().ok()).unwrap_or(1).max(1);
+    let mut idx = 0u64;
     for turn in 0..2usize {
         let me = if turn == 0 { "w" } else { "b" };
         for rights in ["KQkq", "KQ", "kq", "K", "Q", "k", "q", "Kq", "Qk"] {
-            for att in ["r", "b", "n", "q", "p", "k", "R", "B", "N", "Q", "P"] {
+            for att in ["r", "b", "n", "q", "p", "k", "R", "B", "N", "Q", "P", "K"] {
                 for sq in 0..64usize {
                     // base: kings and rooks at home
                     let mut cells: Vec<Option<char>> = vec![None; 64];
@@ -672,7 +675,15 @@ pub fn castle_family(out: &mut dyn Write) {
                     if cells[sq].is_some() { continue; }
                     let a = att.chars().next().unwrap();
                     if (a == 'p' || a == 'P') && (sq < 8 || sq >= 56) { continue; }
-                    if a == 'k' || a == 'K' { continue; }
+                    // the enemy king as the attacker of the castling path: it leaves its home square (its own rights must be absent)
+                    if a == 'k' {
+                        if rights.contains('k') || rights.contains('q') { continue; }
+                        cells[60] = None;
+                    }
+                    if a == 'K' {
+                        if rights.contains('K') || rights.contains('Q') { continue; }
+                        cells[4] = None;
+                    }
                     cells[sq] = Some(a);
                     let mut s = String::new();
                     for r in (0..8).rev() {
@@ -687,6 +698,10 @@ pub fn castle_family(out: &mut dyn Write) {
                         if r != 0 { s.push('/'); }
                     }
                     let fen = format!("{s} {me} {rights} - 0 1");
+                    idx += 1;
+                    if idx % shards != shard {
+                        continue;
+                    }
                     if let Ok(b) = fen.parse::<Board>() {
                         let l = sorted_moves(&b);
                         dist.note(&b, &l);
@@ -808,6 +823,20 @@ pub fn check_family(out: &mut dyn Write, rng: &mut Rng, stride: u64, stride2: u6
                             if sl < 64 && bd.place(p(sl), me, kind).is_err() { continue; }
                             bd.enpassant(File::from_u8(f));
                             try_build(out, &mut dist, &bd);
+                            // the side about to be checked also owns a man that could (wrongly) move while its king is in check
+                            for extra in [Piece::Knight, Piece::Rook] {
+                                let xs = ((ek as u64 * 7 + f as u64 * 13 + sl as u64 * 3 + if extra == Piece::Rook { 29 } else { 0 }) % 64) as u8;
+                                let mut bd2 = Board::builder();
+                                bd2.turn(me);
+                                if bd2.place(p(myk), me, Piece::King).is_err() { continue; }
+                                if bd2.place(p(ek), !me, Piece::King).is_err() { continue; }
+                                if bd2.place(p(prank * 8 + f), !me, Piece::Pawn).is_err() { continue; }
+                                if bd2.place(p(prank * 8 + g), me, Piece::Pawn).is_err() { continue; }
+                                if sl < 64 && bd2.place(p(sl), me, kind).is_err() { continue; }
+                                if bd2.place(p(xs), !me, extra).is_err() { continue; }
+                                bd2.enpassant(File::from_u8(f));
+                                try_build(out, &mut dist, &bd2);
+                            }
                             if sl == 64 {
                                 break;
                             }
